@@ -148,9 +148,9 @@ static void prop_mixed_kernels(Tape &t, Ctx &c) {
 
 // Single precision BLOCK matrix with double precision vectors (kernels, and a double-precision CG iterating on the float-block copy held by
 // amg<builtin<static_matrix<float,2,2>>>: two-argument solve).
-// Known finding F-float-block-times-double: static_matrix<T,N,K> * static_matrix<U,K,M> returns static_matrix<T,N,M> (value_type/static_matrix.hpp:148),
-// i.e. a float block times a double vector is accumulated and rounded in FLOAT; the builtin spmv/residual then add these float results into the
-// double accumulator.  The error is ~6e-8 * sum|a||x| per row instead of ~1e-16.
+// Former finding F-float-block-times-double (fixed in /repo, see known_findings.json): static_matrix<T,N,K> * static_matrix<U,K,M> returned
+// static_matrix<T,N,M>, i.e. a float block times a double vector was accumulated and rounded in FLOAT; the builtin spmv/residual then added these
+// float results into the double accumulator (error ~6e-8 * sum|a||x| per row instead of ~1e-16). Checked without exclusion now.
 static void prop_mixed_block(Tape &t, Ctx &c) {
     int b = static_cast<int>(t.u(2, 3));
     BlockCase bc = gen_block_case(t, b, t.b() ? 6 : 40);
@@ -162,7 +162,6 @@ static void prop_mixed_block(Tape &t, Ctx &c) {
     c.desc << "mixed block kernels b=" << b << " kind=" << bc.kind << " " << bc.family << " " << describe(Af) << " wide=" << wide << " alpha=" << alpha << " beta=" << beta << " A=" << dump_small(Af, 6);
     c.nontrivial = Af.nnz() > Af.n && Af.n >= 2 * b;
     c.label("blockkernels:b=" + std::to_string(b));
-    if (c.known("F-float-block-times-double")) return;
     std::vector<std::complex<long double>> ref, rref; std::vector<long double> S, rS;
     ref_spmv(Af, x, alpha, beta, y0, ref, S);
     ref_spmv(Af, x, -1.0, 1.0, y0, rref, rS);
